@@ -1,1 +1,680 @@
-From TV Require Import Base.
+(* Theorems about the message-level model of the master scheduler (Model/Master.v). *)
+From TV Require Import Base Model.Wiring Model.Ticker Model.Master Proofs.WiringP Proofs.TickerP.
+Open Scope Z_scope.
+
+(* ---------- arithmetic of pacing *)
+Lemma cdiv_le a b n : 0 < n -> a <= b * n -> cdiv a n <= b.
+Proof.
+  intros Hn H. unfold cdiv. assert (Hlt : (a + n - 1) / n < b + 1) by (apply Z.div_lt_upper_bound; [exact Hn | nia]). lia.
+Qed.
+
+Lemma cdiv_ge a n : 0 < n -> a <= cdiv a n * n.
+Proof.
+  intros Hn. unfold cdiv. assert (H := Z.div_mod (a + n - 1) n). assert (H2 := Z.mod_pos_bound (a + n - 1) n Hn). nia.
+Qed.
+
+Lemma cdiv_mono a b n : 0 < n -> a <= b -> cdiv a n <= cdiv b n.
+Proof. intros Hn H. unfold cdiv. apply Z.div_le_mono; lia. Qed.
+
+Lemma fdiv_le x d : 0 < d -> (x / d) * d <= x.
+Proof. intros Hd. assert (H := Z.div_mod x d). assert (H2 := Z.mod_pos_bound x d Hd). nia. Qed.
+
+Lemma fdiv_ge k x d : 0 < d -> k * d <= x -> k <= x / d.
+Proof. intros Hd H. apply Z.div_le_lower_bound; [exact Hd | nia]. Qed.
+
+(* ---------- get_first_wakeups *)
+Lemma min_of_acc w : forall acc,
+  fold_left (fun m (e : comp * Z) => match m with None => Some (snd e) | Some x => Some (Z.min x (snd e)) end) w (Some acc)
+  = Some (fold_left (fun x (e : comp * Z) => Z.min x (snd e)) w acc).
+Proof. induction w as [|e r IH]; intros acc; simpl; [reflexivity | apply IH]. Qed.
+
+Lemma fold_min_le w : forall acc, fold_left (fun x (e : comp * Z) => Z.min x (snd e)) w acc <= acc /\
+  (forall e, In e w -> fold_left (fun x (e : comp * Z) => Z.min x (snd e)) w acc <= snd e).
+Proof.
+  induction w as [|e r IH]; intros acc; simpl.
+  - split; [lia | intros e []].
+  - destruct (IH (Z.min acc (snd e))) as [H1 H2]. split; [lia|]. intros e' [<-|He']; [lia | apply H2; exact He'].
+Qed.
+
+Lemma fold_min_attained w : forall acc,
+  fold_left (fun x (e : comp * Z) => Z.min x (snd e)) w acc = acc \/
+  exists e, In e w /\ fold_left (fun x (e : comp * Z) => Z.min x (snd e)) w acc = snd e.
+Proof.
+  induction w as [|e r IH]; intros acc; simpl; [left; reflexivity|].
+  destruct (IH (Z.min acc (snd e))) as [H|[e' [He' H]]].
+  - destruct (Z.min_spec acc (snd e)) as [[_ Hm]|[_ Hm]].
+    + left. rewrite H. exact Hm.
+    + right. exists e. split; [left; reflexivity | rewrite H; exact Hm].
+  - right. exists e'. split; [right; exact He' | exact H].
+Qed.
+
+(* the wakeup time chosen is the minimum, and the components chosen are exactly those due then *)
+Lemma min_of_spec w m : min_of w = Some m ->
+  (forall c x, In (c, x) w -> m <= x) /\ (exists c, In (c, m) w).
+Proof.
+  unfold min_of. destruct w as [|[c0 x0] r]; simpl; [discriminate|].
+  rewrite min_of_acc. intros H. inversion H; subst m; clear H.
+  destruct (fold_min_le r x0) as [Hle Hall]. split.
+  - intros c x [Hx|Hx]; [inversion Hx; subst; exact Hle | apply (Hall (c, x) Hx)].
+  - destruct (fold_min_attained r x0) as [Hm|[[c x] [Hin Hm]]].
+    + exists c0. left. rewrite Hm. reflexivity.
+    + exists c. right. simpl in Hm. rewrite Hm. exact Hin.
+Qed.
+
+Lemma first_wakeups_spec w when roots :
+  first_wakeups w = Some (when, roots) ->
+  (forall c x, In (c, x) w -> when <= x) /\
+  (exists c, In (c, when) w) /\
+  (forall c, In c roots <-> In (c, when) w).
+Proof.
+  unfold first_wakeups. destruct (min_of w) as [m|] eqn:E; [|discriminate].
+  intros H. inversion H; subst when roots; clear H.
+  destruct (min_of_spec w m E) as [H1 H2]. split; [exact H1|]. split; [exact H2|].
+  intros c. rewrite in_map_iff. split.
+  - intros [[c' x] [Hc Hf]]. simpl in Hc. subst c'. apply filter_In in Hf. destruct Hf as [Hf He]. simpl in He.
+    apply Z.eqb_eq in He. subst x. exact Hf.
+  - intros Hin. exists (c, m). split; [reflexivity|]. apply filter_In. split; [exact Hin | apply Z.eqb_refl].
+Qed.
+
+Lemma first_wakeups_none w : first_wakeups w = None <-> w = [].
+Proof.
+  unfold first_wakeups, min_of. destruct w as [|[c x] r]; simpl; [split; reflexivity|].
+  rewrite min_of_acc. split; discriminate.
+Qed.
+
+Section M.
+Variable conns : list conn.
+Variable comps : list comp.
+Variable initial : Z.
+Variable num den : Z.
+Hypothesis Hnum : 0 < num.
+Hypothesis Hden : 0 < den.
+
+Notation step := (step conns comps initial num den).
+Notation plan := (plan num den).
+Notation stamp := (stamp num den).
+Notation due_real := (due_real num den).
+
+(* ---------- C07 / C12: the scheduler never sleeps past the due time of any pending wakeup *)
+Lemma plan_never_sleeps_past m r c w m' outs :
+  plan m r = (m', outs) -> In (c, w) (mw m) ->
+  exists when roots d, mp m' = PSleep when roots d /\ outs = [OArm d] /\ when <= w /\
+                       d = Z.max r (due_real m when) /\ d <= Z.max r (due_real m w).
+Proof.
+  unfold Master.plan. destruct (first_wakeups (mw m)) as [[when roots]|] eqn:E.
+  - intros H Hin. inversion H; subst m' outs; clear H. destruct (first_wakeups_spec _ _ _ E) as [Hmin _].
+    specialize (Hmin c w Hin). exists when, roots, (Z.max r (due_real m when)). simpl.
+    repeat split; auto. unfold Master.due_real.
+    assert (cdiv ((when - ma_t m) * den) num <= cdiv ((w - ma_t m) * den) num) by (apply cdiv_mono; [exact Hnum | nia]). lia.
+  - intros _ Hin. apply first_wakeups_none in E. rewrite E in Hin. destruct Hin.
+Qed.
+
+(* the time stamp of an interrupt: the simulation time corresponding to the real time of its
+   arrival, rounded down to a whole nanosecond *)
+Lemma stamp_bounds m r : ma_r m <= r ->
+  (stamp m r - ma_t m) * den <= (r - ma_r m) * num < (stamp m r - ma_t m + 1) * den.
+Proof.
+  intros Hr. unfold Master.stamp. replace (ma_t m + (r - ma_r m) * num / den - ma_t m) with ((r - ma_r m) * num / den) by lia.
+  assert (H := Z.div_mod ((r - ma_r m) * num) den). assert (H2 := Z.mod_pos_bound ((r - ma_r m) * num) den Hden). nia.
+Qed.
+
+(* ... and it is already due: its real due time is not after r *)
+Lemma stamp_due m r : ma_r m <= r -> due_real m (stamp m r) <= r.
+Proof.
+  intros Hr. unfold Master.due_real. destruct (stamp_bounds m r Hr) as [H1 _].
+  assert (cdiv ((stamp m r - ma_t m) * den) num <= r - ma_r m) by (apply cdiv_le; [exact Hnum | lia]). lia.
+Qed.
+
+Lemma due_real_mono m a b : a <= b -> due_real m a <= due_real m b.
+Proof.
+  intros H. unfold Master.due_real. assert (cdiv ((a - ma_t m) * den) num <= cdiv ((b - ma_t m) * den) num) by (apply cdiv_mono; [exact Hnum | nia]). lia.
+Qed.
+
+(* an interrupt of c, in any phase once the scheduler has started: c gets a wakeup not later
+   than the stamp -- never later than one that was already pending *)
+Lemma interrupt_owed m r c m' outs :
+  step m r (IInterrupt c) = (m', outs) -> mp m <> PInit -> mp m <> PStopped ->
+  exists w, lookup c (mw m') = Some w /\ w <= stamp m r /\
+            (forall w0, lookup c (mw m) = Some w0 -> w <= w0).
+Proof.
+  intros Hs Hi Hst. simpl in Hs.
+  assert (Hw : exists w, lookup c (interrupt_wake num den m r c) = Some w /\ w <= stamp m r /\
+                         (forall w0, lookup c (mw m) = Some w0 -> w <= w0)).
+  { unfold interrupt_wake. rewrite lookup_upd_same. destruct (lookup c (mw m)) as [w0|] eqn:E.
+    - exists (Z.min (stamp m r) w0). split; [reflexivity|]. split; [lia|]. intros w1 H1. inversion H1; subst. lia.
+    - exists (stamp m r). split; [reflexivity|]. split; [lia|]. intros w1 H1. discriminate. }
+  destruct (mp m) eqn:Ep; try contradiction.
+  - inversion Hs; subst m' outs. simpl. exact Hw.
+  - unfold Master.plan in Hs. simpl in Hs. destruct (first_wakeups (interrupt_wake num den m r c)) as [[w1 r1]|]; inversion Hs; subst m'; simpl; exact Hw.
+  - unfold Master.plan in Hs. simpl in Hs. destruct (first_wakeups (interrupt_wake num den m r c)) as [[w1 r1]|]; inversion Hs; subst m'; simpl; exact Hw.
+Qed.
+
+(* ... and if the scheduler is not in a tick it wakes up at once: the sleep it arms ends now *)
+Lemma interrupt_prompt_when_idle m r c m' outs :
+  step m r (IInterrupt c) = (m', outs) -> ma_r m <= r ->
+  (mp m = PIdle \/ exists w0 r0 d0, mp m = PSleep w0 r0 d0) ->
+  exists when roots, mp m' = PSleep when roots r /\ outs = [OArm r] /\ when <= stamp m r.
+Proof.
+  intros Hs Hr Hph. simpl in Hs.
+  set (m1 := {| mp := PIdle; mw := interrupt_wake num den m r c; ma_t := ma_t m; ma_r := ma_r m; m_err := m_err m |}) in *.
+  assert (Hplan : plan m1 r = (m', outs)).
+  { destruct Hph as [Hp|[w0 [r0 [d0 Hp]]]]; rewrite Hp in Hs; exact Hs. }
+  assert (Hin : exists w, In (c, w) (mw m1) /\ w <= stamp m r).
+  { unfold m1. simpl. unfold interrupt_wake. destruct (lookup c (mw m)) as [w0|].
+    - exists (Z.min (stamp m r) w0). split; [apply lookup_In; apply lookup_upd_same | lia].
+    - exists (stamp m r). split; [apply lookup_In; apply lookup_upd_same | lia]. }
+  destruct Hin as [w [Hin Hw]].
+  destruct (plan_never_sleeps_past m1 r c w m' outs Hplan Hin) as [when [roots [d [Hp [Ho [Hle [Hd Hd2]]]]]]].
+  assert (Hdue : due_real m1 w <= r).
+  { eapply Z.le_trans; [apply due_real_mono; exact Hw|]. apply (stamp_due m r Hr). }
+  assert (Hdr : d = r) by (rewrite Hd in *; lia). subst d. rewrite Hdr in *. exists when, roots. split; [exact Hp|]. split; [exact Ho|]. lia.
+Qed.
+End M.
+
+(* ---------- runs of the master in real time, with a well-behaved environment *)
+Section Runs.
+Variable conns : list conn.
+Variable comps : list comp.
+Variable initial : Z.
+Variable num den : Z.
+Hypothesis Hnum : 0 < num.
+Hypothesis Hden : 0 < den.
+
+Notation step := (Master.step conns comps initial num den).
+Notation due_real := (Master.due_real num den).
+Notation stamp := (Master.stamp num den).
+
+(* what the environment may do: real time does not run backwards (stated in MRun), the sleep
+   timer does not fire before its deadline, no component asks to be called back before the time
+   of the tick it is answering *)
+Definition env_ok (m : master) (r : Z) (i : min) : Prop :=
+  match i with
+  | ITimer => match mp m with PSleep _ _ d => d <= r | _ => True end
+  | IOutput _ t _ (Some w) => t <= w
+  | _ => True
+  end.
+
+Inductive MRun : master -> Z -> list mout -> Prop :=
+| MR_init : forall r, MRun (m_init initial) r []
+| MR_step : forall m now outs r i m' o,
+    MRun m now outs -> now <= r -> env_ok m r i -> step m r i = (m', o) -> MRun m' r (outs ++ o).
+
+(* the time of the latest tick started so far *)
+Definition low (m : master) : Z := match mp m with PTick _ when => when | _ => ma_t m end.
+
+Definition tick_times (outs : list mout) : list Z :=
+  flat_map (fun o => match o with OTickStart t _ => [t] | _ => [] end) outs.
+
+Record MInv (m : master) (now : Z) : Prop := {
+  mi_real : mp m = PInit \/ ma_r m <= now;
+  mi_wake : forall c w, In (c, w) (mw m) -> low m <= w;
+  mi_tick : forall st when, mp m = PTick st when -> tt st = when /\ due_real m when <= now /\ ma_t m <= when;
+  mi_sleep : forall when roots d, mp m = PSleep when roots d ->
+             first_wakeups (mw m) = Some (when, roots) /\ due_real m when <= d;
+  mi_init : mp m = PInit -> mw m = [] /\ ma_t m = initial
+}.
+
+Lemma MInv_later m now r : MInv m now -> now <= r -> MInv m r.
+Proof.
+  intros [H1 H2 H3 H4 H5] Hr. constructor; auto.
+  - destruct H1; [left; assumption | right; lia].
+  - intros st when Hp. destruct (H3 st when Hp) as [A [B C]]. repeat split; auto; lia.
+Qed.
+
+Lemma schedule_times st st' acts : schedule conns comps st = Some (st', acts) ->
+  tt st' = tt st /\ forall a, In a acts -> act_time a = tt st.
+Proof.
+  intros H. destruct (schedule_fields conns comps st st' acts H) as [Ht _]. split; [exact Ht|].
+  intros a Ha. apply (schedule_acts conns comps st st' acts a H) in Ha. destruct Ha as [c [_ [_ ->]]]. apply mk_action_time.
+Qed.
+
+Lemma begin_tick_spec m when roots w m' outs :
+  begin_tick conns comps m when roots w = (m', outs) ->
+  (m' = m /\ outs = [OFail]) \/
+  (exists st1 acts, mp m' = PTick st1 when /\ tt st1 = when /\ mw m' = w /\ ma_t m' = ma_t m /\ ma_r m' = ma_r m /\
+                    outs = OTickStart when roots :: map OAct acts /\ forall a, In a acts -> act_time a = when).
+Proof.
+  unfold begin_tick. destruct (start_tick conns when roots) as [st0|] eqn:Es; [|intros H; inversion H; auto].
+  destruct (schedule conns comps st0) as [[st1 acts]|] eqn:Esch; [|intros H; inversion H; auto].
+  intros H. inversion H; subst m' outs. right. exists st1, acts. simpl.
+  destruct (schedule_times st0 st1 acts Esch) as [Ht Ha].
+  assert (Ht0 : tt st0 = when) by (apply (start_tick_spec conns when roots st0 Es)). rewrite Ht0 in *.
+  repeat split; auto.
+Qed.
+
+Lemma stamp_ge_tick m r when : ma_r m <= r -> due_real m when <= r -> when <= stamp m r.
+Proof.
+  intros Hr Hd. unfold Master.due_real in Hd. unfold Master.stamp.
+  assert (H1 : cdiv ((when - ma_t m) * den) num <= r - ma_r m) by lia.
+  assert (H2 := cdiv_ge ((when - ma_t m) * den) num Hnum).
+  assert (H3 : (when - ma_t m) * den <= (r - ma_r m) * num) by nia.
+  assert (H4 : when - ma_t m <= (r - ma_r m) * num / den) by (apply fdiv_ge; [exact Hden | exact H3]). lia.
+Qed.
+
+Lemma stamp_ge_anchor m r : ma_r m <= r -> ma_t m <= stamp m r.
+Proof.
+  intros Hr. unfold Master.stamp. assert (0 <= (r - ma_r m) * num / den) by (apply Z.div_pos; nia). lia.
+Qed.
+
+Lemma tick_times_acts acts : tick_times (map OAct acts) = [].
+Proof. induction acts as [|a r IH]; simpl; [reflexivity | exact IH]. Qed.
+
+Lemma tick_times_stops l : tick_times (map OStop l) = [].
+Proof. induction l as [|x r IH]; simpl; [reflexivity | exact IH]. Qed.
+
+Lemma tick_times_app a b : tick_times (a ++ b) = tick_times a ++ tick_times b.
+Proof. unfold tick_times. apply flat_map_app. Qed.
+
+Lemma interrupt_wake_in m r c c' w :
+  In (c', w) (interrupt_wake num den m r c) ->
+  In (c', w) (mw m) \/ (c' = c /\ (w = stamp m r \/ exists w0, In (c, w0) (mw m) /\ w = Z.min (stamp m r) w0)).
+Proof.
+  unfold interrupt_wake. intros H. apply In_upd_cases in H. destruct H as [[-> Hw]|H]; [|left; exact H].
+  right. split; [reflexivity|]. destruct (lookup c (mw m)) as [w0|] eqn:E.
+  - right. exists w0. split; [apply lookup_In; exact E | exact Hw].
+  - left. exact Hw.
+Qed.
+
+Lemma plan_inv m r m' outs :
+  Master.plan num den m r = (m', outs) -> ma_r m <= r ->
+  (forall c w, In (c, w) (mw m) -> ma_t m <= w) ->
+  mw m' = mw m /\ ma_t m' = ma_t m /\ ma_r m' = ma_r m /\
+  (mp m' = PIdle \/ exists when roots d, mp m' = PSleep when roots d /\ first_wakeups (mw m) = Some (when, roots) /\
+                                        due_real m when <= d /\ r <= d).
+Proof.
+  unfold Master.plan. intros H Hr Hw. destruct (first_wakeups (mw m)) as [[when roots]|] eqn:E; inversion H; subst m' outs; simpl.
+  - repeat split; auto. right. exists when, roots, (Z.max r (due_real m when)). repeat split; auto; lia.
+  - repeat split; auto.
+Qed.
+
+Lemma MInv_rest p w t a e r :
+  (p = PIdle \/ p = PStopped) -> a <= r -> (forall c x, In (c, x) w -> t <= x) ->
+  MInv {| mp := p; mw := w; ma_t := t; ma_r := a; m_err := e |} r.
+Proof.
+  intros Hp Ha Hw. constructor; simpl.
+  - right. exact Ha.
+  - intros c x Hin. unfold low. simpl. destruct Hp as [-> | ->]; apply (Hw c x Hin).
+  - intros st when H. destruct Hp as [-> | ->]; discriminate.
+  - intros when roots d H. destruct Hp as [-> | ->]; discriminate.
+  - intros H. destruct Hp as [-> | ->]; discriminate.
+Qed.
+
+Lemma MInv_tick st when w t a e r :
+  tt st = when -> a <= r -> a + cdiv ((when - t) * den) num <= r -> t <= when ->
+  (forall c x, In (c, x) w -> when <= x) ->
+  MInv {| mp := PTick st when; mw := w; ma_t := t; ma_r := a; m_err := e |} r.
+Proof.
+  intros Htt Ha Hdue Ht Hw. constructor; simpl.
+  - right. exact Ha.
+  - intros c x Hin. unfold low. simpl. apply (Hw c x Hin).
+  - intros st2 wn H. inversion H; subst st2 wn. repeat split; auto.
+  - intros wn roots d H. discriminate.
+  - intros H. discriminate.
+Qed.
+
+Lemma MInv_planned m r m' po :
+  Master.plan num den m r = (m', po) -> ma_r m <= r -> (forall c x, In (c, x) (mw m) -> ma_t m <= x) ->
+  MInv m' r /\ low m' = ma_t m /\ tick_times po = [].
+Proof.
+  intros Hpl Hr Hw. destruct (plan_inv m r m' po Hpl Hr Hw) as [Pmw [Pat [Par Pph]]].
+  assert (Hlow : low m' = ma_t m).
+  { unfold low. destruct Pph as [->|[wn [rs [d [-> _]]]]]; rewrite Pat; reflexivity. }
+  split; [|split; [exact Hlow|]].
+  - constructor.
+    + right. rewrite Par. exact Hr.
+    + intros c x Hin. rewrite Hlow. rewrite Pmw in Hin. apply (Hw c x Hin).
+    + intros st2 wn Hp2. destruct Pph as [Hp|[wn2 [rs [d [Hp _]]]]]; rewrite Hp in Hp2; discriminate.
+    + intros wn rs d Hp2. destruct Pph as [Hp|[wn2 [rs2 [d2 [Hp [Hfw [Hd _]]]]]]]; rewrite Hp in Hp2; [discriminate|].
+      inversion Hp2; subst wn2 rs2 d2. rewrite Pmw. split; [exact Hfw|].
+      unfold Master.due_real in *. rewrite Pat, Par. exact Hd.
+    + intros Hp2. destruct Pph as [Hp|[wn2 [rs [d [Hp _]]]]]; rewrite Hp in Hp2; discriminate.
+  - unfold Master.plan in Hpl. destruct (first_wakeups (mw m)) as [[? ?]|]; inversion Hpl; reflexivity.
+Qed.
+
+Lemma MInv_err m r e :
+  MInv m r -> MInv {| mp := mp m; mw := mw m; ma_t := ma_t m; ma_r := ma_r m; m_err := e |} r.
+Proof.
+  intros [H1 H2 H3 H4 H5]. constructor; simpl; auto.
+Qed.
+
+Definition StepOk (m : master) (r : Z) (m' : master) (o : list mout) : Prop :=
+  MInv m' r /\ low m <= low m' /\
+  (forall t, In t (tick_times o) -> low m <= t /\ t <= low m') /\ (length (tick_times o) <= 1)%nat.
+
+Lemma StepOk_noticks m r m' o :
+  MInv m' r -> low m <= low m' -> tick_times o = [] -> StepOk m r m' o.
+Proof.
+  intros H1 H2 H3. unfold StepOk. rewrite H3. split; [exact H1|]. split; [exact H2|]. split; [intros t []|simpl; lia].
+Qed.
+
+(* an answer (Output with optional callback, or Skip) arriving during a tick *)
+Lemma answer_ok m r c t ch ca m' o :
+  MInv m r -> (match ca with Some w => t <= w | None => True end) ->
+  on_answer conns comps num den m r c t ch ca = (m', o) -> StepOk m r m' o.
+Proof.
+  intros HI Henv Hs. destruct HI as [Ireal Iwake Itick Isleep Iinit]. unfold on_answer in Hs.
+  assert (Hsame : (m', o) = (m, [OFail]) -> StepOk m r m' o).
+  { intros H. inversion H; subst. apply StepOk_noticks; [constructor; auto | lia | reflexivity]. }
+  destruct (mp m) as [|st when| |w0 r0 d0|] eqn:Ep; try (apply Hsame; symmetry; exact Hs).
+  destruct (Itick st when eq_refl) as [Htt [Hdue Hat]].
+  destruct (propagate conns comps st c t ch) as [|st' acts fin] eqn:Epr; [apply Hsame; symmetry; exact Hs|].
+  destruct (propagate_ok conns comps st c t ch st' acts fin Epr) as [_ [Ht [Hsch _]]].
+  destruct (schedule_times _ st' acts Hsch) as [Htt' _]. simpl in Htt'.
+  assert (Hlow : low m = when) by (unfold low; rewrite Ep; reflexivity).
+  assert (Hreal : ma_r m <= r) by (destruct Ireal as [H|H]; [congruence | exact H]).
+  set (w' := match ca with Some x => upd c x (mw m) | None => mw m end) in *.
+  assert (Hw' : forall c' x, In (c', x) w' -> when <= x).
+  { intros c' x Hin. unfold w' in Hin. destruct ca as [x0|].
+    - apply In_upd_cases in Hin. destruct Hin as [[_ ->]|Hin]; [lia|]. rewrite <- Hlow. apply (Iwake c' x Hin).
+    - rewrite <- Hlow. apply (Iwake c' x Hin). }
+  destruct fin.
+  - destruct (m_err m) eqn:Eerr.
+    + inversion Hs; subst m' o. apply StepOk_noticks.
+      * apply MInv_rest; [right; reflexivity | lia | exact Hw'].
+      * rewrite Hlow. unfold low. simpl. lia.
+      * rewrite tick_times_app, tick_times_acts. reflexivity.
+    + set (m1 := {| mp := PIdle; mw := w'; ma_t := when; ma_r := r; m_err := false |}) in *.
+      destruct (Master.plan num den m1 r) as [m2 po] eqn:Epl. inversion Hs; subst m' o.
+      destruct (MInv_planned m1 r m2 po Epl (Z.le_refl r) Hw') as [HI2 [Hlow2 Hpo]]. simpl in Hlow2.
+      apply StepOk_noticks; [exact HI2 | lia |].
+      rewrite tick_times_app, tick_times_acts. simpl. exact Hpo.
+  - inversion Hs; subst m' o. apply StepOk_noticks.
+    + apply MInv_tick; auto. rewrite Htt'. exact Htt.
+    + rewrite Hlow. unfold low. simpl. lia.
+    + apply tick_times_acts.
+Qed.
+
+Lemma interrupt_entries m r c lowv :
+  ma_r m <= r -> lowv <= stamp m r -> (forall c0 x0, In (c0, x0) (mw m) -> lowv <= x0) ->
+  forall c' x, In (c', x) (interrupt_wake num den m r c) -> lowv <= x.
+Proof.
+  intros Hr Hst Hold c' x Hin. apply interrupt_wake_in in Hin.
+  destruct Hin as [Hin|[_ [->|[w1 [Hin ->]]]]]; [eapply Hold; exact Hin | exact Hst |].
+  specialize (Hold c w1 Hin). lia.
+Qed.
+
+(* one step of the master: the invariant is kept, the latest tick time never decreases, at most
+   one tick starts, and its time lies between the previous and the new latest tick time *)
+Lemma step_inv m now r i m' o :
+  MInv m now -> now <= r -> env_ok m r i -> step m r i = (m', o) -> StepOk m r m' o.
+Proof.
+  intros HI Hr Henv Hs. assert (HIr := MInv_later m now r HI Hr).
+  assert (Hsame : (m', o) = (m, [OFail]) \/ (m', o) = (m, []) -> StepOk m r m' o).
+  { intros [H|H]; inversion H; subst; (apply StepOk_noticks; [exact HIr | lia | reflexivity]). }
+  destruct HIr as [Ireal Iwake Itick Isleep Iinit].
+  destruct i as [|c t ch ca|c t|c|c|]; simpl in Hs.
+  - (* IStart *)
+    destruct (mp m) eqn:Ep; try (apply Hsame; left; symmetry; exact Hs).
+    destruct (Iinit eq_refl) as [Hmw Hat].
+    set (m0 := {| mp := PInit; mw := mw m; ma_t := initial; ma_r := r; m_err := m_err m |}) in *.
+    assert (Hlow : low m = initial) by (unfold low; rewrite Ep; exact Hat).
+    destruct (begin_tick_spec m0 initial comps (mw m) m' o Hs) as [[-> ->]|[st1 [acts [Hp [Htt [Hmw' [Hat' [Har' [Ho Ha]]]]]]]]].
+    + apply StepOk_noticks; [|rewrite Hlow; unfold low, m0; simpl; lia | reflexivity].
+      constructor; unfold m0; simpl; auto; try discriminate. intros c w Hin. rewrite Hmw in Hin. destruct Hin.
+    + unfold StepOk. assert (Hlow' : low m' = initial) by (unfold low; rewrite Hp; reflexivity).
+      split; [|split; [lia|split]].
+      * constructor.
+        -- right. rewrite Har'. unfold m0. simpl. lia.
+        -- intros c w Hin. rewrite Hmw', Hmw in Hin. destruct Hin.
+        -- intros st when Hp2. rewrite Hp in Hp2. inversion Hp2; subst st when. split; [exact Htt|]. split.
+           ++ unfold Master.due_real. rewrite Hat', Har'. unfold m0. simpl. replace ((initial - initial) * den) with 0 by lia.
+              unfold cdiv. rewrite Z.div_small by lia. lia.
+           ++ rewrite Hat'. unfold m0. simpl. lia.
+        -- intros when roots d Hp2. rewrite Hp in Hp2. discriminate.
+        -- intros Hp2. rewrite Hp in Hp2. discriminate.
+      * intros t Ht. rewrite Ho in Ht. simpl in Ht. rewrite tick_times_acts in Ht. destruct Ht as [<-|[]]. lia.
+      * rewrite Ho. simpl. rewrite tick_times_acts. simpl. lia.
+  - (* IOutput *)
+    apply (answer_ok m r c t ch ca m' o); [constructor; auto | destruct ca; [exact Henv | exact I] | exact Hs].
+  - (* ISkip *)
+    apply (answer_ok m r c t [] None m' o); [constructor; auto | exact I | exact Hs].
+  - (* IInterrupt *)
+    destruct (mp m) as [|st when| |w0 r0 d0|] eqn:Ep; try (apply Hsame; left; symmetry; exact Hs).
+    + destruct (Itick st when eq_refl) as [Htt [Hdue Hat]].
+      assert (Hreal : ma_r m <= r) by (destruct Ireal as [H|H]; [congruence | exact H]).
+      assert (Hlow : low m = when) by (unfold low; rewrite Ep; reflexivity).
+      inversion Hs; subst m' o. apply StepOk_noticks; [|rewrite Hlow; unfold low; simpl; lia | reflexivity].
+      apply MInv_tick; auto. apply interrupt_entries; [exact Hreal | apply stamp_ge_tick; assumption |].
+      intros c0 x0 H0. rewrite <- Hlow. apply (Iwake c0 x0 H0).
+    + assert (Hreal : ma_r m <= r) by (destruct Ireal as [H|H]; [congruence | exact H]).
+      assert (Hlow : low m = ma_t m) by (unfold low; rewrite Ep; reflexivity).
+      set (m1 := {| mp := PIdle; mw := interrupt_wake num den m r c; ma_t := ma_t m; ma_r := ma_r m; m_err := m_err m |}) in *.
+      destruct (MInv_planned m1 r m' o Hs Hreal) as [HI2 [Hlow2 Hpo]].
+      { simpl. apply interrupt_entries; [exact Hreal | apply stamp_ge_anchor; exact Hreal |].
+        intros c0 x0 H0. rewrite <- Hlow. apply (Iwake c0 x0 H0). }
+      simpl in Hlow2. apply StepOk_noticks; [exact HI2 | lia | exact Hpo].
+    + assert (Hreal : ma_r m <= r) by (destruct Ireal as [H|H]; [congruence | exact H]).
+      assert (Hlow : low m = ma_t m) by (unfold low; rewrite Ep; reflexivity).
+      set (m1 := {| mp := PIdle; mw := interrupt_wake num den m r c; ma_t := ma_t m; ma_r := ma_r m; m_err := m_err m |}) in *.
+      destruct (MInv_planned m1 r m' o Hs Hreal) as [HI2 [Hlow2 Hpo]].
+      { simpl. apply interrupt_entries; [exact Hreal | apply stamp_ge_anchor; exact Hreal |].
+        intros c0 x0 H0. rewrite <- Hlow. apply (Iwake c0 x0 H0). }
+      simpl in Hlow2. apply StepOk_noticks; [exact HI2 | lia | exact Hpo].
+  - (* IException *)
+    assert (Hstops : tick_times (map OStop comps) = []) by apply tick_times_stops.
+    destruct (mp m) as [|st when| |w0 r0 d0|] eqn:Ep.
+    + apply Hsame; left; symmetry; exact Hs.
+    + destruct (Itick st when eq_refl) as [Htt [Hdue Hat]].
+      assert (Hreal : ma_r m <= r) by (destruct Ireal as [H|H]; [congruence | exact H]).
+      assert (Hlow : low m = when) by (unfold low; rewrite Ep; reflexivity).
+      inversion Hs; subst m' o.
+      apply StepOk_noticks; [|rewrite Hlow; unfold low; simpl; lia | exact Hstops].
+      apply MInv_rest; [right; reflexivity | lia |]. intros c0 x0 H0. rewrite <- Hlow. apply (Iwake c0 x0 H0).
+    + assert (Hreal : ma_r m <= r) by (destruct Ireal as [H|H]; [congruence | exact H]).
+      assert (Hlow : low m = ma_t m) by (unfold low; rewrite Ep; reflexivity).
+      inversion Hs; subst m' o. apply StepOk_noticks; [|rewrite Hlow; unfold low; simpl; lia | exact Hstops].
+      apply MInv_rest; [left; reflexivity | exact Hreal |]. intros c0 x0 H0. rewrite <- Hlow. apply (Iwake c0 x0 H0).
+    + assert (Hreal : ma_r m <= r) by (destruct Ireal as [H|H]; [congruence | exact H]).
+      assert (Hlow : low m = ma_t m) by (unfold low; rewrite Ep; reflexivity).
+      destruct (Isleep w0 r0 d0 eq_refl) as [Hfw Hdue].
+      inversion Hs; subst m' o. apply StepOk_noticks; [|rewrite Hlow; unfold low; simpl; lia | exact Hstops].
+      constructor; simpl.
+      * right. exact Hreal.
+      * intros c0 x0 H0. unfold low. simpl. rewrite <- Hlow. apply (Iwake c0 x0 H0).
+      * intros st when H. discriminate.
+      * intros when roots d H. inversion H; subst. split; [exact Hfw | exact Hdue].
+      * intros H. discriminate.
+    + assert (Hreal : ma_r m <= r) by (destruct Ireal as [H|H]; [congruence | exact H]).
+      assert (Hlow : low m = ma_t m) by (unfold low; rewrite Ep; reflexivity).
+      inversion Hs; subst m' o. apply StepOk_noticks; [|rewrite Hlow; unfold low; simpl; lia | exact Hstops].
+      apply MInv_rest; [right; reflexivity | exact Hreal |]. intros c0 x0 H0. rewrite <- Hlow. apply (Iwake c0 x0 H0).
+  - (* ITimer *)
+    destruct (mp m) as [|st when0| |when roots d|] eqn:Ep; try (apply Hsame; right; symmetry; exact Hs).
+    destruct (Isleep when roots d eq_refl) as [Hfw Hdue]. simpl in Henv. rewrite Ep in Henv.
+    assert (Hreal : ma_r m <= r) by (destruct Ireal as [H|H]; [congruence | exact H]).
+    assert (Hlow : low m = ma_t m) by (unfold low; rewrite Ep; reflexivity).
+    destruct (first_wakeups_spec _ _ _ Hfw) as [Hmin [[c0 Hc0] Hroots]].
+    assert (Hwhen : ma_t m <= when) by (rewrite <- Hlow; apply (Iwake c0 when Hc0)).
+    destruct (begin_tick_spec m when roots _ m' o Hs) as [[-> ->]|[st1 [acts [Hp [Htt [Hmw' [Hat' [Har' [Ho Ha]]]]]]]]].
+    + apply Hsame. left. reflexivity.
+    + assert (Hlow' : low m' = when) by (unfold low; rewrite Hp; reflexivity).
+      unfold StepOk. split; [|split; [lia|split]].
+      * constructor.
+        -- right. rewrite Har'. exact Hreal.
+        -- intros c x Hin. rewrite Hlow'. rewrite Hmw' in Hin. apply filter_In in Hin. destruct Hin as [Hin _]. apply (Hmin c x Hin).
+        -- intros st wn Hp2. rewrite Hp in Hp2. inversion Hp2; subst st wn. split; [exact Htt|]. split.
+           ++ unfold Master.due_real in *. rewrite Hat', Har'. lia.
+           ++ rewrite Hat'. exact Hwhen.
+        -- intros wn rs d2 Hp2. rewrite Hp in Hp2. discriminate.
+        -- intros Hp2. rewrite Hp in Hp2. discriminate.
+      * intros t Ht. rewrite Ho in Ht. simpl in Ht. rewrite tick_times_acts in Ht. destruct Ht as [<-|[]]. lia.
+      * rewrite Ho. simpl. rewrite tick_times_acts. simpl. lia.
+Qed.
+
+(* ---------- consequences over whole runs *)
+Lemma run_inv m now outs : MRun m now outs -> MInv m now /\ (forall t, In t (tick_times outs) -> t <= low m).
+Proof.
+  induction 1 as [r | m now outs r i m' o HR [IH IHt] Hnow Henv Hs].
+  - split; [|intros t []]. constructor; simpl; auto; try discriminate. intros c w [].
+  - destruct (step_inv m now r i m' o IH Hnow Henv Hs) as [HI [Hlow [Hnew _]]]. split; [exact HI|].
+    intros t Ht. rewrite tick_times_app in Ht. apply in_app_iff in Ht. destruct Ht as [Ht|Ht].
+    + specialize (IHt t Ht). lia.
+    + apply Hnew. exact Ht.
+Qed.
+
+Fixpoint nondecr (l : list Z) : Prop :=
+  match l with
+  | a :: ((b :: _) as r) => a <= b /\ nondecr r
+  | _ => True
+  end.
+
+Lemma nondecr_app_single l x : nondecr l -> (forall t, In t l -> t <= x) -> nondecr (l ++ [x]).
+Proof.
+  induction l as [|a r IH]; intros Hn Hle; simpl; [exact I|].
+  destruct r as [|b r'].
+  - simpl. split; [apply Hle; left; reflexivity | exact I].
+  - simpl in Hn. destruct Hn as [Hab Hn]. simpl. split; [exact Hab|]. apply IH; [exact Hn|]. intros t Ht. apply Hle. right. exact Ht.
+Qed.
+
+(* successive tick times never decrease *)
+Lemma run_monotone m now outs : MRun m now outs -> nondecr (tick_times outs).
+Proof.
+  induction 1 as [r | m now outs r i m' o HR IH Hnow Henv Hs]; [exact I|].
+  destruct (run_inv m now outs HR) as [HI Hle].
+  destruct (step_inv m now r i m' o HI Hnow Henv Hs) as [_ [_ [Hnew Hlen]]].
+  rewrite tick_times_app. destruct (tick_times o) as [|x [|y l]] eqn:E.
+  - rewrite app_nil_r. exact IH.
+  - apply nondecr_app_single; [exact IH|]. intros t Ht. specialize (Hle t Ht). destruct (Hnew x (or_introl eq_refl)). lia.
+  - simpl in Hlen. lia.
+Qed.
+
+(* ---------- C12: a tick started by the timer is never early; C06: its roots are exactly the
+   components due at that time, and exactly their wakeups are consumed *)
+Lemma timer_tick_spec m now r m' o when roots :
+  MInv m now -> now <= r -> env_ok m r ITimer -> step m r ITimer = (m', o) ->
+  In (OTickStart when roots) o ->
+  (when - ma_t m) * den <= (r - ma_r m) * num /\
+  (forall c x, In (c, x) (mw m) -> when <= x) /\
+  (forall c, In c roots <-> In (c, when) (mw m)) /\
+  (forall c x, In (c, x) (mw m') <-> In (c, x) (mw m) /\ ~ In c roots).
+Proof.
+  intros HI Hr Henv Hs Hin. assert (HIr := MInv_later m now r HI Hr). destruct HIr as [Ireal Iwake Itick Isleep Iinit].
+  simpl in Hs. destruct (mp m) as [|st when0| |when1 roots1 d|] eqn:Ep;
+    try (inversion Hs; subst m' o; destruct Hin; fail).
+  - destruct (Isleep when1 roots1 d eq_refl) as [Hfw Hdue]. simpl in Henv. rewrite Ep in Henv.
+    destruct (begin_tick_spec m when1 roots1 _ m' o Hs) as [[-> ->]|[st1 [acts [Hp [Htt [Hmw' [Hat' [Har' [Ho Ha]]]]]]]]].
+    + destruct Hin as [H|[]]. discriminate.
+    + rewrite Ho in Hin. destruct Hin as [H|H]; [|apply in_map_iff in H; destruct H as [a [Ha' _]]; discriminate].
+      injection H as E1 E2. clear Htt. subst when1 roots1. destruct (first_wakeups_spec _ _ _ Hfw) as [Hmin [_ Hroots]].
+      split; [|split; [exact Hmin|split; [exact Hroots|]]].
+      * unfold Master.due_real in Hdue. assert (H1 := cdiv_ge ((when - ma_t m) * den) num Hnum).
+        assert (cdiv ((when - ma_t m) * den) num <= r - ma_r m) by lia. nia.
+      * intros c x. rewrite Hmw'. rewrite filter_In. simpl. rewrite negb_true_iff, memb_false. reflexivity.
+Qed.
+
+(* when a tick ends at real time r the scheduler plans its sleep: it ends exactly at the due
+   time of the earliest wakeup (or at once if that is already past) *)
+Lemma plan_deadline m r m' d :
+  Master.plan num den m r = (m', [OArm d]) ->
+  exists when roots, first_wakeups (mw m) = Some (when, roots) /\ d = Z.max r (due_real m when).
+Proof.
+  unfold Master.plan. destruct (first_wakeups (mw m)) as [[when roots]|]; intros H; inversion H. exists when, roots. auto.
+Qed.
+
+(* ---------- C04: ticks never overlap and every dispatch carries the running tick's time *)
+Definition cur_of (m : master) : option Z := match mp m with PTick _ when => Some when | _ => None end.
+
+Lemma master_phase_dec m : mp m = PStopped \/ mp m <> PStopped.
+Proof. destruct (mp m); auto; right; discriminate. Qed.
+
+(* reading the outputs from the left: is each tick closed before the next starts, does each tick
+   end with its own time, does every dispatch lie inside a tick and carry its time?  Returns the
+   time of the tick left open, or None if the bracket structure is violated *)
+Fixpoint bracket (cur : option Z) (outs : list mout) : option (option Z) :=
+  match outs with
+  | [] => Some cur
+  | OTickStart t _ :: r => match cur with None => bracket (Some t) r | Some _ => None end
+  | OTickEnd t :: r => match cur with Some t' => if Z.eqb t t' then bracket None r else None | None => None end
+  | OAct a :: r => match cur with Some t' => if Z.eqb (act_time a) t' then bracket cur r else None | None => None end
+  | _ :: r => bracket cur r
+  end.
+
+Lemma bracket_app a : forall cur b,
+  bracket cur (a ++ b) = match bracket cur a with Some c => bracket c b | None => None end.
+Proof.
+  induction a as [|x r IH]; intros cur b; simpl; [reflexivity|].
+  destruct x; simpl; try apply IH.
+  - destruct cur as [t'|]; [|reflexivity]. destruct (Z.eqb (act_time a) t'); [apply IH | reflexivity].
+  - destruct cur; [reflexivity | apply IH].
+  - destruct cur as [t'|]; [|reflexivity]. destruct (Z.eqb t t'); [apply IH | reflexivity].
+Qed.
+
+Lemma bracket_acts t acts : (forall a, In a acts -> act_time a = t) -> bracket (Some t) (map OAct acts) = Some (Some t).
+Proof.
+  induction acts as [|a r IH]; intros Ha; simpl; [reflexivity|].
+  rewrite (Ha a (or_introl eq_refl)), Z.eqb_refl. apply IH. intros x Hx. apply Ha. right. exact Hx.
+Qed.
+
+Lemma bracket_plan m r m' po cur : Master.plan num den m r = (m', po) -> bracket cur po = Some cur.
+Proof. unfold Master.plan. destruct (first_wakeups (mw m)) as [[? ?]|]; intros H; inversion H; reflexivity. Qed.
+
+Lemma bracket_stops cur l : bracket cur (map OStop l) = Some cur.
+Proof. induction l as [|x r IH]; simpl; [reflexivity | exact IH]. Qed.
+
+Lemma plan_cur m r m' po : Master.plan num den m r = (m', po) -> cur_of m' = None.
+Proof. unfold Master.plan, cur_of. destruct (first_wakeups (mw m)) as [[? ?]|]; intros H; inversion H; reflexivity. Qed.
+
+Lemma step_bracket_live m now r i m' o :
+  MInv m now -> mp m <> PStopped -> step m r i = (m', o) ->
+  exists c', bracket (cur_of m) o = Some c' /\ (mp m' = PStopped \/ c' = cur_of m').
+Proof.
+  intros [Ireal Iwake Itick Isleep Iinit] Hlive Hs.
+  assert (Hanswer : forall c t ch ca, on_answer conns comps num den m r c t ch ca = (m', o) ->
+            exists c', bracket (cur_of m) o = Some c' /\ (mp m' = PStopped \/ c' = cur_of m')).
+  { intros c t ch ca Ha. unfold on_answer in Ha. unfold cur_of at 1.
+    destruct (mp m) as [|st when| |w0 r0 d0|] eqn:Ep; try (inversion Ha; subst; eexists; split; [reflexivity|]; right; unfold cur_of; rewrite Ep; reflexivity).
+    destruct (Itick st when eq_refl) as [Htt _].
+    destruct (propagate conns comps st c t ch) as [|st' acts fin] eqn:Epr;
+      [inversion Ha; subst; eexists; split; [reflexivity|]; right; unfold cur_of; rewrite Ep; reflexivity|].
+    destruct (propagate_ok conns comps st c t ch st' acts fin Epr) as [_ [_ [Hsch _]]].
+    destruct (schedule_times _ st' acts Hsch) as [_ Hacts]. simpl in Hacts. rewrite Htt in Hacts.
+    destruct fin.
+    - destruct (m_err m).
+      + inversion Ha; subst m' o. exists None. rewrite bracket_app, (bracket_acts when acts Hacts). simpl. rewrite Z.eqb_refl. auto.
+      + destruct (Master.plan num den _ r) as [m2 po] eqn:Epl. inversion Ha; subst m' o. exists None.
+        rewrite bracket_app, (bracket_acts when acts Hacts). simpl. rewrite Z.eqb_refl.
+        rewrite (bracket_plan _ _ _ _ None Epl), (plan_cur _ _ _ _ Epl). auto.
+    - inversion Ha; subst m' o. exists (Some when). rewrite (bracket_acts when acts Hacts). auto. }
+  destruct i as [|c t ch ca|c t|c|c|]; simpl in Hs.
+  - destruct (mp m) eqn:Ep; try (inversion Hs; subst; eexists; split; [reflexivity|]; right; unfold cur_of; rewrite Ep; reflexivity).
+    destruct (begin_tick_spec _ initial comps (mw m) m' o Hs) as [[-> ->]|[st1 [acts [Hp [Htt [_ [_ [_ [Ho Ha]]]]]]]]].
+    + eexists. split; [reflexivity|]. right. unfold cur_of. rewrite Ep. reflexivity.
+    + exists (Some initial). rewrite Ho. unfold cur_of. rewrite Ep, Hp. simpl. split; [apply bracket_acts; exact Ha | auto].
+  - eapply Hanswer. exact Hs.
+  - eapply Hanswer. exact Hs.
+  - unfold cur_of at 1. destruct (mp m) as [|st when| |w0 r0 d0|] eqn:Ep;
+      try (inversion Hs; subst; eexists; split; [reflexivity|]; right; unfold cur_of; simpl; rewrite ?Ep; reflexivity).
+    + exists None. rewrite (bracket_plan _ _ _ _ None Hs), (plan_cur _ _ _ _ Hs). auto.
+    + exists None. rewrite (bracket_plan _ _ _ _ None Hs), (plan_cur _ _ _ _ Hs). auto.
+  - unfold cur_of at 1. destruct (mp m) as [|st when| |w0 r0 d0|] eqn:Ep; inversion Hs; subst.
+    + eexists. split; [reflexivity|]. right. unfold cur_of. rewrite Ep. reflexivity.
+    + eexists. split; [apply bracket_stops|]. left. reflexivity.
+    + eexists. split; [apply bracket_stops|]. right. unfold cur_of. simpl. rewrite ?Ep. reflexivity.
+    + eexists. split; [apply bracket_stops|]. right. unfold cur_of. simpl. rewrite ?Ep. reflexivity.
+    + contradiction.
+  - unfold cur_of at 1. destruct (mp m) as [|st when0| |when roots d|] eqn:Ep;
+      try (inversion Hs; subst; eexists; split; [reflexivity|]; right; unfold cur_of; rewrite Ep; reflexivity).
+    destruct (begin_tick_spec m when roots _ m' o Hs) as [[-> ->]|[st1 [acts [Hp [Htt [_ [_ [_ [Ho Ha]]]]]]]]].
+    + eexists. split; [reflexivity|]. right. unfold cur_of. rewrite Ep. reflexivity.
+    + exists (Some when). rewrite Ho. unfold cur_of. rewrite Hp. simpl. split; [apply bracket_acts; exact Ha | auto].
+Qed.
+
+(* once stopped, the scheduler only fails requests or repeats the stop broadcast *)
+Lemma step_stopped m r i m' o c :
+  mp m = PStopped -> step m r i = (m', o) -> bracket c o = Some c /\ mp m' = PStopped.
+Proof.
+  intros Hp Hs. destruct i as [|c0 t ch ca|c0 t|c0|c0|]; simpl in Hs; unfold on_answer in Hs; rewrite ?Hp in Hs;
+    inversion Hs; subst; simpl; auto. split; [apply bracket_stops | reflexivity].
+Qed.
+
+Lemma run_bracket m now outs : MRun m now outs ->
+  exists c, bracket None outs = Some c /\ (mp m = PStopped \/ c = cur_of m).
+Proof.
+  induction 1 as [r | m now outs r i m' o HR [c [IH Hc]] Hnow Henv Hs].
+  - exists None. split; [reflexivity | right; reflexivity].
+  - destruct (run_inv m now outs HR) as [HI _]. rewrite bracket_app, IH.
+    destruct (master_phase_dec m) as [Hst|Hlive].
+    + destruct (step_stopped m r i m' o c Hst Hs) as [Hb Hp]. exists c. split; [exact Hb | left; exact Hp].
+    + destruct Hc as [Hc|Hc]; [contradiction|]. subst c. eapply step_bracket_live; eassumption.
+Qed.
+End Runs.
